@@ -86,6 +86,19 @@ def random_script(rnd: random.Random, length: int) -> List[Dict[str, Any]]:
     return out
 
 
+def off_timer_scripts():
+    def S(k, **kw):
+        return {"ev": "Step", "ins": dict({"k": k}, **kw)}
+    out = []
+    for pm, ps in ((3, 5), (7, 11), (20, 30), (4, 4), (13, 2)):
+        for idle in (0, 1, 2, 5, 17, 40):
+            for lead in (1, 4):
+                sc = [{"ev": "TimerCfg", "pm": pm, "ps": ps}, S("SETIMR", v=0)] + [S("NOP")] * lead + [S("OFF")] + [S("NOP")] * idle
+                sc += [{"ev": "OnKey"}] + [S("NOP")] * (max(pm, ps) + 4) + [S("CLRISR", m=[0, 1, 3])] + [S("NOP")] * (max(pm, ps) + 2)
+                out.append(sc)
+    return out
+
+
 def depth_guess(script) -> int:
     # the generator cannot know when deliveries happen; RETI outside a handler is legal code too (pops garbage),
     # but keeps traces meaningless, so only emit RETI when at least one interrupt source has been raised before
@@ -139,6 +152,14 @@ def in_handler_event_scripts():
     return out
 
 
+def make_machine(mh, vh, impl: str):
+    if impl == "rs":
+        return mh.RustMachine(vh)
+    if impl == "rsk":
+        return mh.RustMachine(vh, kb_irq=False)
+    return mh.PyMachine(fast=impl.endswith("+fast"), trace=impl.endswith("+trace"))
+
+
 def drive_shard(shard_id, items, extra):
     sys.path.insert(0, str(vlib.VERIF / "harness" / "py"))
     vlib.setup_repo_imports()
@@ -148,12 +169,16 @@ def drive_shard(shard_id, items, extra):
     tid = shard_id * 10_000_000
     try:
         for si, script in enumerate(items):
-            for k, impl in enumerate(("rs", "py", "rsk")):
+            for k, impl in enumerate(("rs", "py", "rsk", "py+fast", "py+trace")):
                 if impl == "rsk" and si % 3 != 0:
                     continue          # every third script also runs on a Rust runtime built with keyboard interrupts disabled
+                if impl == "py+fast" and si % 4 != 1:
+                    continue          # every fourth script also runs on the Python machine's minimal stepping path (fast_mode)
+                if impl == "py+trace" and si % 4 != 3:
+                    continue          # ... and every fourth on a Python machine constructed with tracing switched on
                 tid += 1
-                m = mh.RustMachine(vh) if impl == "rs" else (mh.RustMachine(vh, kb_irq=False) if impl == "rsk" else mh.PyMachine())
-                meta[tid] = {"impl": impl, "script": script}
+                m = make_machine(mh, vh, impl)
+                meta[tid] = {"impl": impl.split("+")[0], "variant": impl, "script": script}
                 ev = mh.run_script(m, script, tid)
                 events.extend(ev)
     finally:
@@ -189,7 +214,7 @@ def campaign(cr: CheckRun, items, tag: str) -> None:
         shape = _shape(b["clause"], meta["impl"], detail)
         cr.violation(f"{b['clause']}:{meta['impl']}:{shape}",
                      f"{meta['impl']} machine: {b['clause']} fails at step {b['line']} ({shape}): instr={detail[0]} pre={detail[1]} post={detail[2]} frame={detail[3]}",
-                     {"impl": meta["impl"], "script": meta["script"], "clause": b["clause"], "line": b["line"]})
+                     {"impl": meta["impl"], "variant": meta.get("variant", meta["impl"]), "script": meta["script"], "clause": b["clause"], "line": b["line"]})
     cr.cov["traces_validated_against_impl"] += ntr
     cr.cov["evaluations"] += nev
     cr.cov.setdefault("campaigns", []).append({"name": tag, "traces": ntr, "events": nev, "rejected_steps": len(bad)})
@@ -260,6 +285,23 @@ def run(cr: CheckRun) -> None:
     mitems = [c13._script_from_machine_acts(v) for v in msims if len(v) >= 3]
     campaign(cr, mitems, "machine-model-schedules")
     cr.mark("machine-model")
+    # "a powered-off CPU additionally stops both timers": the runs of the composed model's schedules and dedicated OFF scripts
+    # (both timers live with different periods, 0..40 idle steps while off, ON key, then long enough to see both fire) are judged by
+    # TraceMachineTimers.tla; its clause OffFreezes is this sentence (the cadence clauses belong to C13 and are reported there)
+    off_items = mitems + off_timer_scripts()
+    ntr, nev, bad = vlib.trace_campaign("C12", SD, "TraceMachineTimers", "TraceMachineTimers.cfg", off_items, c13._machine_drive, "off-stops-timers")
+    other = 0
+    for b, meta in bad:
+        d = b["detail"]
+        if b["clause"] == "OffFreezes":
+            cr.violation(f"OffFreezes:{meta['impl']}:{d[0]}", f"{meta['impl']} machine: the {d[0]} timer does not stand still while the CPU is powered off (step {b['line']}): pre={dict(d[2])} post={dict(d[3])}",
+                         {"kind": "off-timers", "impl": meta["impl"], "variant": meta.get("variant", meta["impl"]), "script": meta["script"], "clause": b["clause"], "line": b["line"]})
+        else:
+            other += 1
+    cr.cov["traces_validated_against_impl"] += ntr
+    cr.cov["evaluations"] += nev
+    cr.cov.setdefault("campaigns", []).append({"name": "off-stops-timers", "traces": ntr, "events": nev, "rejected_steps": len(bad), "cadence_rejections_left_to_C13": other})
+    cr.mark("off-timers")
     rnd = random.Random(cr.seed)
     ritems = [random_script(rnd, 40) for _ in range(400 if quick else 6000)]
     ritems += nesting_scripts()
@@ -285,9 +327,16 @@ def replay(path: str) -> int:
     vlib.build_vh()
     import machine_harness as mh
     rec = json.loads(Path(path).read_text())["replay"]
+    if rec.get("kind") == "off-timers":
+        from checks import c13
+        evs, _ = c13._machine_drive(0, [rec["script"]], None)
+        bad = [b for b in vlib.tlc_judge_trace("C12", SD, "TraceMachineTimers", "TraceMachineTimers.cfg", evs, "replay-off") if b["clause"] == "OffFreezes"]
+        for b in bad:
+            print("REJECTED", b["clause"], b["line"])
+        return 1 if bad else 0
     vh = Vh()
     try:
-        m = mh.RustMachine(vh) if rec["impl"] == "rs" else (mh.RustMachine(vh, kb_irq=False) if rec["impl"] == "rsk" else mh.PyMachine())
+        m = make_machine(mh, vh, rec.get("variant") or rec["impl"])
         ev = mh.run_script(m, rec["script"], 1)
     finally:
         vh.close()
